@@ -182,7 +182,7 @@ static void run_history(const History& h, vr::Ctx& ctx, uint64_t& steps)
     gLog.clear();
     Run r;
     auto handler = Http::make_handler<RecHandler>();
-    auto opts    = Http::Endpoint::options().flags(Tcp::Options::ReuseAddr).maxRequestSize(4096).headerTimeout(std::chrono::seconds(1)).bodyTimeout(std::chrono::seconds(2));
+    auto opts    = Http::Endpoint::options().flags(Tcp::Options::ReuseAddr | Tcp::Options::NoDelay).maxRequestSize(4096).headerTimeout(std::chrono::seconds(1)).bodyTimeout(std::chrono::seconds(2));
     r.srv.start(handler, opts, 1);
     steps += sim::settle();
     r.baselineFds = sim::list_fds().size();
